@@ -35,6 +35,7 @@ class Variant:
     expect: tuple = ()         # rule ids of which at least one must fire (breaks); () = any finding
     kind: str = "break"        # break | twin
     count: int = 1             # which occurrence (1-based); 0 = all
+    extra: tuple = ()          # further (old, new) fragments replaced in the same printed text (each must be present exactly once)
 
 
 def _find(tree: ast.Module, func: str):
@@ -92,6 +93,10 @@ def apply_variant(prog: Program, v: Variant):
             if idx < 0:
                 return None
         new_text = text[:idx] + v.new + text[idx + len(v.old):]
+    for o2, n2 in v.extra:
+        if new_text.count(o2) != 1:
+            return None
+        new_text = new_text.replace(o2, n2)
     try:
         new_ast = ast.parse(textwrap.dedent(new_text) if v.func else new_text)
     except SyntaxError as e:
